@@ -275,3 +275,13 @@ def replay(path):
         bad = 0 if o[1] == '1' else 1
     print('REPRODUCED' if bad else 'not reproduced')
     return bad
+
+
+_run_with_extra = run
+
+
+def run(ctx):   # noqa: F811
+    """... then the MWPM model correspondence (Decoders/PlanarMwpm.v, ToricMwpm.v; engine build/qmodel_mwpm)"""
+    _run_with_extra(ctx)
+    from harness import c02_mwpm
+    c02_mwpm.run(ctx)
